@@ -1,16 +1,17 @@
 import Oracle.Basic
 import Oracle.C01
 import Oracle.C11
+import Oracle.C06a
+import Oracle.C09
 open Oracle
 
 def dispatch (op : String) (args res : List String) : String :=
   if op == "f64" then handleF64 args res
   else if op == "f64ofint" then handleF64Int args res
   else
-    match Oracle.C01.handle op args res with
-    | some v => v
-    | none =>
-    match Oracle.C11.handle op args res with
+    let handlers : List (String → List String → List String → Option String) :=
+      [Oracle.C01.handle, Oracle.C11.handle, Oracle.C06a.handle, Oracle.C09.handle]
+    match handlers.findSome? (fun h => h op args res) with
     | some v => v
     | none => "bad unknown-op-or-args " ++ op
 
